@@ -58,7 +58,9 @@ pub fn gen_requests(rng: &mut Rng, n: u64, out: &mut Out, id: &str) -> Vec<Strin
         let mut set: Vec<u64> = vec![];
         for _ in 0..rng.range(1, 3) { let a = *rng.pick(&cands); req.push(format!("{id} break {a:x}")); set.push(a); }
         req.push(format!("{id} start"));
-        for _ in 0..rng.range(3, 25) {
+        let fault_session = id == "C02" && rng.chance(1, 3);
+        let steps = if fault_session { rng.range(1, 8) } else { rng.range(3, 25) };
+        for _ in 0..steps {
             match rng.below(20) {
                 0..=4 => { req.push(format!("{id} continue")); out.count("op.continue", 1); }
                 5..=6 => { let a = *rng.pick(&cands); req.push(format!("{id} break {a:x}")); set.push(a); out.count("op.break", 1); }
@@ -68,6 +70,14 @@ pub fn gen_requests(rng: &mut Rng, n: u64, out: &mut Out, id: &str) -> Vec<Strin
                 14..=17 => { req.push(format!("{id} next - 0")); out.count("op.next", 1); }
                 _ => { req.push(format!("{id} finish - 0")); out.count("op.finish", 1); }
             }
+        }
+        if fault_session {
+            // make the n-th ptrace request of one kind fail (EIO) during ONE further command, then stop the session
+            let kind = *rng.pick(&["POKE", "POKE", "POKE", "PEEK", "STEP", "CONT", "SETREGS"]);
+            let n = rng.range(1, 12);
+            req.push(format!("{id} fault {kind} {n}"));
+            req.push(match rng.below(5) { 0 => format!("{id} continue"), 1 => format!("{id} stepi"), 2 => format!("{id} step 0"), 3 => format!("{id} finish - 0"), _ => format!("{id} next - 0") });
+            out.count(&format!("fault.{kind}"), 1);
         }
     }
     req
@@ -88,8 +98,18 @@ pub fn session(id: &str, lines: &[String], emit: &mut dyn FnMut(String)) {
     let oracle = |emit: &mut dyn FnMut(String), key: &str, what: String| {
         emit(format!("!oracle {}", json!({"key": key, "what": what, "replay": {"prog": p.name}})));
     };
+    let mut armed = false;
+    let mut after_fault = false;
     for line in &lines[1..] {
         let t: Vec<&str> = line.split(' ').collect();
+        if after_fault { emit(format!("{line}\tafter-fault")); continue; }
+        if let [_, "fault", kind, n] = t.as_slice() {
+            let req = match *kind { "POKE" => libc::PTRACE_POKEDATA, "PEEK" => libc::PTRACE_PEEKDATA, "STEP" => libc::PTRACE_SINGLESTEP,
+                                    "CONT" => libc::PTRACE_CONT, "SETREGS" => libc::PTRACE_SETREGS, _ => u32::MAX };
+            if req != u32::MAX && started && !exited { ipose::arm_fault(req, n.parse().unwrap_or(1)); armed = true; }
+            emit(format!("{line}\tok"));
+            continue;
+        }
         ipose::take();
         let gpc = |live: &Live| -> String {
             let pc = u64::from(live.dbg.ecx().location().pc);
@@ -140,6 +160,31 @@ pub fn session(id: &str, lines: &[String], emit: &mut dyn FnMut(String)) {
             }
             _ => (line.clone(), "bad-op".into()),
         };
+        let fired = armed && ipose::fault_fired();
+        if armed { ipose::disarm_fault(); armed = false; }
+        if fired {
+            // The command ran with one failing ptrace request. The model has no failure points, so the line is
+            // reported as `faulted` on both sides and the session ends; the ORACLE decides: whatever the command
+            // answered, no patch other than the user's breakpoints (+ entry) may remain, and the program must still
+            // compute what it computes natively.
+            ipose::take();
+            after_fault = true;
+            if started && !exited {
+                if let Some(d) = text_diff(&p, live.pid(), base) {
+                    let mut want: BTreeSet<u64> = bset.clone();
+                    want.insert(p.entry);
+                    let got: BTreeSet<u64> = d.keys().copied().collect();
+                    if got != want {
+                        let extra: Vec<u64> = got.difference(&want).copied().collect();
+                        let missing: Vec<u64> = want.difference(&got).copied().collect();
+                        let key = if !extra.is_empty() { "patches-left-behind-when-a-command-fails-midway" } else { "breakpoint-lost-when-a-command-fails-midway" };
+                        oracle(emit, key, format!("`{line}` with an injected ptrace failure answered `{ans}`: left-over INT3 at {:x?}, breakpoints no longer patched {:x?}", extra, missing));
+                    }
+                }
+            }
+            emit(format!("{} faulted {}\tfaulted", t[0], t[1..].join(" ")));
+            continue;
+        }
         let obs = observe(&p, base);
         // rewrite step requests with the observed parameters
         let req = match t.get(1).copied() {
